@@ -77,7 +77,7 @@ def run(ctx, chk):
 
     # ------------------------------------------------------------ N2/N3 manager
     def keep_opaque(x):
-        by_value_ctx = any(x.crate.tystr(x.locals[i]['ty']).endswith('thread_manager::Context') for i in range(1, x.argc + 1))
+        by_value_ctx = any(x.crate.tystr(x.locals[i]['ty']) == 'clock_bound_d::thread_manager::Context' for i in range(1, x.argc + 1))
         return by_value_ctx or x.name in ('broadcast_abort', 'new_channel_web') or x.crate.name != common.DAEMON
     eng = common.mk_engine(fb, no_inline=keep_opaque)
     paths = [p for p in eng.run(tmb) if p.kind != 'unreachable']
@@ -95,13 +95,14 @@ def run(ctx, chk):
                 if c[0] != 'agg' or not c[1].startswith('closure:'):
                     continue
                 ctxs = [f for f in c[3] if f[0] == 'agg' and f[1].endswith('thread_manager::Context')]
-                if c[1] in spawn_seen:
+                skey = (c[1], fmt(ctxs[0][3][0]) if ctxs and ctxs[0][3] else '')
+                if skey in spawn_seen:
                     continue
-                spawn_seen[c[1]] = (c, ctxs, ef, p)
+                spawn_seen[skey] = (c, ctxs, ef, p)
     chk.ob('C15.N2', 'web:all-ids-registered', {'MainThread', 'ClockErrorBoundPoller', 'ShmWriter'} <= web_ids, tmb.where(0),
            'channel web is created for ids %s' % sorted(web_ids))
     workers = {}
-    for cname, (c, ctxs, ef, p) in spawn_seen.items():
+    for (cname, _ck), (c, ctxs, ef, p) in spawn_seen.items():
         where = ef['site'][2]
         chk.ob('C15.N2', 'spawn:owns-context:%s' % cname.split('::')[-1], len(ctxs) == 1, where,
                'spawned closure captures %d Context value(s) by value' % len(ctxs))
@@ -118,13 +119,13 @@ def run(ctx, chk):
         # the mailbox value is the result of a lookup keyed by a ChannelId (get_mailbox, or the
         # HashMap::remove it wraps, possibly through a helper): find that key
         for x in psi.walk(mbox) if mbox else []:
-            if x[0] == 't' and x[1] == 'call':
-                for a in x[2][2:]:
-                    if a[0] == 'ref':
-                        vn = variant_of(eng, p.state, a)
+            if x[0] == 't' and x[1] == 'call' and isinstance(x[2][1], int) and x[2][1] < len(p.effects):
+                ef0 = p.effects[x[2][1]]
+                for a, pv in zip(ef0.get('args', []), ef0.get('pointees', [])):
+                    if pv is None and a[0] == 'ref':
                         pv = eng.load(p.state, a[1])
-                        if vn in ids.values() and pv[0] == 'agg' and pv[1].endswith('ChannelId'):
-                            mb_id = vn
+                    if pv is not None and pv[0] == 'agg' and pv[1].endswith('ChannelId') and pv[2] in ids.values():
+                        mb_id = pv[2]
         chk.ob('C15.N2', 'spawn:mailbox-matches-id:%s' % cid, cid is not None and mb_id == cid, where,
                'Context{channel_id: %s} holds the mailbox of %s' % (cid, mb_id))
         # the closure hands the Context by value to its worker
@@ -137,7 +138,7 @@ def run(ctx, chk):
                     if e2['kind'] == 'call' and not e2['tracing'] and any(a == cx for a in e2['args']):
                         wk = e2['callee']
         wb = fb.body(wk) if wk else None
-        by_value = wb is not None and wb.crate.tystr(wb.locals[1]['ty']).endswith('thread_manager::Context')
+        by_value = wb is not None and any(wb.crate.tystr(wb.locals[i]['ty']) == 'clock_bound_d::thread_manager::Context' for i in range(1, wb.argc + 1))
         chk.ob('C15.N2', 'spawn:context-moved-to-worker:%s' % cid, by_value, where,
                'closure passes its Context by value to %s' % wk)
         if wb is not None:
@@ -335,8 +336,16 @@ def explicit_loop_broadcast(fb, chk, b, ids):
             if n and n[0] in ('eq', 'ne') and n[1][0] == 't' and n[1][1] == 'discr' and 'next#' in fmt(n[1]) and n[2] == main_discr:
                 truth = (op == '!=' and set(v) == {0}) or (op == '==' and v == 1)
                 is_main = truth if n[0] == 'eq' else not truth
+            n2 = common.cmp_norm(t)
+            if n2 and n2[0] in ('eq', 'ne') and is_main is None:
+                sides = [x for x in (n2[1], n2[2]) if x[0] == 'agg' and x[1].endswith('ChannelId')]
+                other = [x for x in (n2[1], n2[2]) if not (x[0] == 'agg' and x[1].endswith('ChannelId'))]
+                if len(sides) == 1 and sides[0][2] == 'MainThread' and other and 'next#' in fmt(other[0]):
+                    truth = (op == '!=' and set(v) == {0}) or (op == '==' and v == 1)
+                    is_main = truth if n2[0] == 'eq' else not truth
         sends = [ef for ef in calls if ef['callee'].endswith('Sender::<T>::send')]
-        lookup_failed = any(t[0] == 't' and t[1] == 'discr' and 'get#' in fmt(t) and op == '==' and v == 0 for t, op, v, _ in p.conds)
+        lookup_failed = any(t[0] == 't' and t[1] == 'discr' and 'get#' in fmt(t) and ((op == '==' and v == 0) or (op == '!=' and 1 in v))
+                            for t, op, v, _ in p.conds)
         if is_main is True:
             chk.ob('C15.N4', 'broadcast:filter-excludes-only-main', not sends, p.where[2], 'MainThread is skipped (sends: %d)' % len(sends))
         elif is_main is False:
@@ -368,8 +377,8 @@ def final_holder(fb, wb, depth=0):
         if nb is None or nb.argc < 1:
             continue
         for i, a in enumerate(t['args']):
-            if a.get('k') == 'move' and not a['p']['proj'] and wb.crate.tystr(wb.locals[a['p']['l']]['ty']).endswith('thread_manager::Context') \
-                    and nb.crate.tystr(nb.locals[i + 1]['ty']).endswith('thread_manager::Context'):
+            if a.get('k') == 'move' and not a['p']['proj'] and wb.crate.tystr(wb.locals[a['p']['l']]['ty']) == 'clock_bound_d::thread_manager::Context' \
+                    and nb.crate.tystr(nb.locals[i + 1]['ty']) == 'clock_bound_d::thread_manager::Context':
                 return final_holder(fb, nb, depth + 1)
     return wb
 
@@ -393,7 +402,7 @@ def context_dropped_on_all_exits(b):
     """the by-value Context parameter is dropped on every path to `return` and to `resume`"""
     ctx_local = None
     for i in range(1, b.argc + 1):
-        if b.crate.tystr(b.locals[i]['ty']).endswith('thread_manager::Context'):
+        if b.crate.tystr(b.locals[i]['ty']) == 'clock_bound_d::thread_manager::Context':
             ctx_local = i
     if ctx_local is None:
         return False, 'no by-value Context parameter'
